@@ -312,7 +312,7 @@ type c09Result struct {
 	Call  string `json:"call"`
 	Desc  string `json:"desc"`
 	Len   int    `json:"len"`
-	Hex   string `json:"data_hex_first_512"`
+	Hex   string `json:"data_hex_first_65536"`
 	Alloc uint64 `json:"alloc,omitempty"`
 	CPUms int64  `json:"cpu_ms,omitempty"`
 }
@@ -326,17 +326,17 @@ func c09Run(rank int, name string, data []byte, raw bool, emit func(c09Result)) 
 		func() {
 			defer func() {
 				if p := recover(); p != nil {
-					emit(c09Result{rank, "panic", name, call, fmt.Sprintf("panic escaped to the caller: %v", p), len(data), hexHead(data, 512), 0, 0})
+					emit(c09Result{rank, "panic", name, call, fmt.Sprintf("panic escaped to the caller: %v", p), len(data), hexHead(data, 65536), 0, 0})
 				}
 			}()
 			f()
 		}()
 		a1, t1 := allocBytes(), threadCPU()
 		if a1-a0 > budgetAlloc {
-			emit(c09Result{rank, "memory", name, call, fmt.Sprintf("allocated %d bytes for a %d-byte input (budget 1 MiB + 8192 x input = %d)", a1-a0, len(data), budgetAlloc), len(data), hexHead(data, 512), a1 - a0, 0})
+			emit(c09Result{rank, "memory", name, call, fmt.Sprintf("allocated %d bytes for a %d-byte input (budget 1 MiB + 8192 x input = %d)", a1-a0, len(data), budgetAlloc), len(data), hexHead(data, 65536), a1 - a0, 0})
 		}
 		if t1-t0 > budgetCPU {
-			emit(c09Result{rank, "time", name, call, fmt.Sprintf("used %v of CPU for a %d-byte input (budget 2 s + 50 us x input = %v)", t1-t0, len(data), budgetCPU), len(data), hexHead(data, 512), 0, (t1 - t0).Milliseconds()})
+			emit(c09Result{rank, "time", name, call, fmt.Sprintf("used %v of CPU for a %d-byte input (budget 2 s + 50 us x input = %v)", t1-t0, len(data), budgetCPU), len(data), hexHead(data, 65536), 0, (t1 - t0).Milliseconds()})
 		}
 	}
 	if raw {
@@ -530,7 +530,7 @@ func C09(tier string) {
 				if hung {
 					kind, why = "hang", "no progress for 60 s; the process was killed"
 				}
-				report(c09Result{rk, kind, name, "worker", why, len(data), hexHead(data, 512), 0, 0})
+				report(c09Result{rk, kind, name, "worker", why, len(data), hexHead(data, 65536), 0, 0})
 				start = rk + 1
 				if attempt == 2 {
 					r.Cap(fmt.Sprintf("worker %d stopped after 3 crashes/hangs at rank %d of %d", w, rk, total))
